@@ -413,6 +413,17 @@ def _read_request(
     reader = ValidatedReader(ipc.open_stream(reader_stream), ipc_validation)
     try:
         batch, custom_metadata = reader.read_next_batch_with_custom_metadata()
+    except StopIteration:
+        # A complete IPC stream with no batch in it.  The stream has been read
+        # to its end, so the transport is clean: answer it.  (Left to
+        # propagate, StopIteration reads as "peer closed" and silently ends
+        # the serve loop.)
+        raise RpcError(
+            "ProtocolError",
+            "Request stream contains no batch. A request is an IPC stream with exactly one batch "
+            "carrying 'vgi_rpc.method' in its custom_metadata.",
+            "",
+        ) from None
     except IPCError as exc:
         # The batch came off the wire intact -- the framing is sound, it is
         # the *contents* that fail validation (a date64 that is not a whole
@@ -482,11 +493,16 @@ def _read_request(
     # Store trace context in contextvar for hook consumption (pipe/subprocess transport)
     tp = custom_metadata.get(TRACEPARENT_KEY) if custom_metadata else None
     if tp is not None:
-        headers: dict[str, str] = {"traceparent": tp.decode()}
-        ts = custom_metadata.get(TRACESTATE_KEY) if custom_metadata else None
-        if ts is not None:
-            headers["tracestate"] = ts.decode()
-        _current_trace_headers.set(headers)
+        # Trace context is advisory: a value that is not UTF-8 is dropped (W3C
+        # Trace Context: an invalid header is ignored), never a reason to
+        # refuse — let alone abandon — the request.
+        with contextlib.suppress(UnicodeDecodeError):
+            headers: dict[str, str] = {"traceparent": tp.decode()}
+            ts = custom_metadata.get(TRACESTATE_KEY) if custom_metadata else None
+            if ts is not None:
+                with contextlib.suppress(UnicodeDecodeError):
+                    headers["tracestate"] = ts.decode()
+            _current_trace_headers.set(headers)
     # If the outer batch is an external-location pointer, fetch the
     # referenced bytes and use the inner batch's columns for kwargs.
     # Dispatch metadata (method name, request version, traceparent) is
@@ -523,11 +539,17 @@ def _read_request(
                     "",
                 ) from exc
         if len(batch.schema) > 0 and batch.num_rows != 1:
+            try:
+                schema_text = fmt_schema(batch.schema)
+            except UnicodeDecodeError:
+                # pyarrow hands out field names lazily; a name that is not UTF-8
+                # only fails here, while the refusal is being worded.
+                schema_text = "(column names are not valid UTF-8)"
             raise RpcError(
                 "ProtocolError",
                 f"Expected 1 row in request batch, got {batch.num_rows}. "
                 f"Each parameter is a column (not a row). The batch should have exactly 1 row with schema "
-                f"{fmt_schema(batch.schema)}.",
+                f"{schema_text}.",
                 "",
             )
         # Record the schema the kwargs came off, before as_py() erases it.
@@ -872,6 +894,10 @@ def _drain_stream(reader: ValidatedReader) -> None:
             reader.read_next_batch()
         except StopIteration:
             return
+        except IPCError:
+            # Content validation of a batch that is being thrown away: the
+            # batch has been consumed, carry on to the EOS marker.
+            continue
 
 
 def _write_stream_header(
